@@ -105,7 +105,7 @@ def run(ctx):
     ctx.fn(ss)
     def is_kind(t):
         return isinstance(t, tuple) and t[0] == "discr" and T.is_param(T.peel(t[1]), 1)
-    stab, sopen = tables.value_table(ss, is_kind)
+    stab, sopen = tables.value_table(ss, is_kind, universe=set(discr))
     if not ctx.ob("C13.sqlstate-total", len(stab) > 0, "sqlstate() has no decision on the discriminant", fn=ss.path, construct="switch"):
         return
     table = {}
